@@ -61,12 +61,28 @@ func (c *chanSpec) rejected() int {
 	return n
 }
 
+// counters for evidence classes (reset by the test that reads them)
+var longJunkScripts, repeatedValid int
+
 func drawScript(t *rapid.T, tag byte, withDialect bool, key *[32]byte, maxSeg int, heartbeats bool) []seg {
 	n := rapid.IntRange(0, maxSeg).Draw(t, "nseg")
 	var out []seg
 	idx := 0
 	// every sender signs with its own clock: the links' timestamps are minutes apart from each other
 	ts := uint64(5000000) + uint64(tag)*40000000
+	if n > 0 && rapid.IntRange(0, 5).Draw(t, "link_starts_with_a_long_run_of_junk") == 0 {
+		// what a link may say before its first frame: the boot banner of a modem, a terminal session, line noise -
+		// hundreds of bytes that are no frame, each reported, none of them a reason to give up the link
+		m := rapid.IntRange(256, 420).Draw(t, "long_junk_len")
+		b := rapid.SliceOfN(rapid.Byte(), m, m).Draw(t, "long_junk")
+		for j := range b {
+			if b[j] == 0xFD || b[j] == 0xFE {
+				b[j] = 0x42
+			}
+		}
+		out = append(out, seg{kind: "junk", bytes: b})
+		longJunkScripts++
+	}
 	for i := 0; i < n; i++ {
 		kinds := []string{"valid-raw", "valid-raw", "junk"}
 		if withDialect {
@@ -170,6 +186,14 @@ func drawScript(t *rapid.T, tag byte, withDialect bool, key *[32]byte, maxSeg in
 				}
 			}
 			out = append(out, seg{kind: k, bytes: b})
+		}
+		// a valid frame may come several times in a row as well, byte for byte (a sender that never advances its
+		// sequence number and reports an unchanged state): every copy is a frame of its own
+		if last := out[len(out)-1]; (last.kind == "valid-raw" || last.kind == "valid-debug") && rapid.IntRange(0, 4).Draw(t, "valid_frame_repeated") == 0 {
+			for k := rapid.IntRange(1, 3).Draw(t, "valid_repeats"); k > 0; k-- {
+				out = append(out, seg{kind: last.kind, bytes: last.bytes, idx: last.idx, own: last.own})
+				repeatedValid++
+			}
 		}
 		// a sender that repeats itself: the refused frame just generated arrives once more, byte for byte (a beacon
 		// with a hard-coded frame, a log replayed in a loop) - each copy is refused and reported on its own
@@ -329,7 +353,7 @@ func renderEvents(recs []sim.Rec, chanIdx map[*gomavlib.Channel]int) string {
 
 func TestC10EventStream(t *testing.T) {
 	rec := evid.New(t, "C10", "scripted scenarios on a real Node: 1..4 channels (custom in-memory transports, TCP-server and UDP-server peers on loopback) each fed a generated script of valid tagged frames, complete frames with wrong checksum / wrong signature / missing signature and non-marker junk in generated chunkings (UDP: datagrams of one to many whole segments, up to 512 bytes), a consumer with generated pacing (fast, sleeping, bursty, paused then resumed), concurrent WriteMessageAll callers, late-connecting and disconnecting TCP peers; per channel the event sequence must match Open (Frame|ParseError)* Close?, frames == the valid frames of that channel's script in order with the channel's tag, rejected input only as ParseError, exactly one Close for a disconnected peer and nothing after it; non-trivial = >=2 channels with >=1 rejected segment and a non-fast consumer; distinct by hash of the scripts")
-	rec.Require("multi-channel+rejected+slow-consumer", "custom", "tcp", "udp", "inkey", "inkey+out-v1", "disconnect", "paused-consumer", "concurrent-writers", "stream-requests-enabled", "link-drops-right-after-last-byte+stream-requests", "udp-datagram-of-several-frames-over-280-bytes")
+	rec.Require("multi-channel+rejected+slow-consumer", "custom", "tcp", "udp", "inkey", "inkey+out-v1", "disconnect", "paused-consumer", "concurrent-writers", "stream-requests-enabled", "link-drops-right-after-last-byte+stream-requests", "udp-datagram-of-several-frames-over-280-bytes", "link-starting-with-256+-bytes-of-junk", "valid-frame-repeated-byte-for-byte")
 	evid.Check(t, rec, evid.N(400, 1000), func(t *rapid.T) {
 		drawNodeInit(t)
 		w := &c10World{}
@@ -419,6 +443,14 @@ func TestC10EventStream(t *testing.T) {
 		nt := len(w.specs) >= 2 && rejected >= 1 && (w.pacing.Kind != "fast" || w.pauseMs > 0)
 		if nt {
 			cls = append(cls, "multi-channel+rejected+slow-consumer")
+		}
+		if longJunkScripts > 0 {
+			cls = append(cls, "link-starting-with-256+-bytes-of-junk")
+			longJunkScripts = 0
+		}
+		if repeatedValid > 0 {
+			cls = append(cls, "valid-frame-repeated-byte-for-byte")
+			repeatedValid = 0
 		}
 		rec.Case(nt, evid.HashS(w.describe()), cls...)
 		if nt && rec.WantSample("scenario") {
